@@ -29,6 +29,7 @@ FINDINGS = {
     "bind-target-sibling": "C01-bind-target-sibling",
     "not-of-error": "C01-not-of-error",
     "bind-arg-unbound": "C01-bind-arg-unbound",
+    "empty-sum": "C01-empty-sum-negative-zero",
 }
 
 
@@ -162,6 +163,7 @@ def evaluate(ctx, binpath, cases, stream, coq=True, known_ok=None, env=None):
                 if classes & {"subselect-in-graph-var", "undef-filter-sibling", "bind-target-sibling"}:
                     ctx.broken("correspondence", stream + ":classifier", "a case inside a scoping class satisfies the hypotheses of C01_pattern",
                                {"q": q, "query": c["query"], "classes": sorted(classes)})
+        classes = classes | L.data_classes(c["ds"], q)
         if not wellscoped:
             st["not_wellscoped_skipped"] = st.get("not_wellscoped_skipped", 0) + 1   # outside the property's quantifier
             continue
@@ -234,6 +236,7 @@ def replay_known(ctx, binpath):
         rows = im.get("query", {}).get("rows")
         bad = "no rows" if rows is None else L.check_answer(q, spec, rows)
         cls, _ = L.classify(q)
+        cls = cls | L.data_classes(ds, q)
         if k["id"] not in [FINDINGS.get(x) for x in cls]:
             ctx.broken("correspondence", "known-finding-replay", "the witness of %s is not inside its own class" % k["id"], w)
         if bad:
